@@ -483,7 +483,11 @@ func (t *tlistener) SetOption(n string, v interface{}) error {
 		if i, ok := v.(int); ok {
 			t.ctl.mu.Lock()
 			t.ctl.maxrx = i
+			nd := t.ctl.NewDelay
 			t.ctl.mu.Unlock()
+			if nd > 0 {
+				time.Sleep(nd / 2) // configuring the new transport listener takes time as well
+			}
 			return nil
 		}
 		return mangos.ErrBadValue
